@@ -57,17 +57,122 @@ def prep(e: ast.AST, env: Optional[Dict[str, object]] = None) -> ast.AST:
     e = _Prep().visit(copy.deepcopy(e))
     if env:
         opaque = {k[5:]: v for k, v in env.items() if k.startswith("call:") and v is not UNK}
-        if opaque:
+        resolver = env.get("@resolve")
+        if opaque or resolver is not None:
 
             class _Op(ast.NodeTransformer):
                 def visit_Call(self, node):
                     t = q.unparse(node)
                     if t in opaque:
                         return ast.copy_location(ast.Constant(value=opaque[t]), node)
-                    return self.generic_visit(node)
+                    node = self.generic_visit(node)
+                    if resolver is not None:
+                        v = resolver(node, env)
+                        if v is not UNK:
+                            return ast.copy_location(ast.Constant(value=v), node)
+                    return node
 
             e = _Op().visit(e)
     return e
+
+
+def make_resolver(repo, relpath: str, clsname: Optional[str], max_depth: int = 2):
+    """A call resolver for :func:`pfold`: the value of ``self.<m>(args)`` (a method
+    of ``clsname``) or ``<f>(args)`` (a function of module ``relpath``) when the
+    callee stores nothing to ``self`` and every return reachable under the
+    folded arguments (and the caller's ``self.*`` bindings) folds to one and the
+    same constant.  Lets a predicate that was extracted into a helper still be
+    decided.  Returns UNK when it cannot decide."""
+    depth = [0]
+    cache: Dict[object, object] = {}
+
+    def resolve(call: ast.Call, env: Dict[str, object]):
+        if call.keywords and any(k.arg is None for k in call.keywords):
+            return UNK
+        fi = None
+        is_method = False
+        if isinstance(call.func, ast.Attribute) and q.dotted(call.func.value) == "self" and clsname:
+            if repo.has_func(relpath, "%s.%s" % (clsname, call.func.attr)):
+                fi = repo.func(relpath, "%s.%s" % (clsname, call.func.attr))
+                is_method = True
+        elif isinstance(call.func, ast.Name) and repo.has_func(relpath, call.func.id):
+            fi = repo.func(relpath, call.func.id)
+        if fi is None or depth[0] >= max_depth or isinstance(fi.node, ast.AsyncFunctionDef):
+            return UNK
+        if fi.node.decorator_list and not all(q.dotted(d) in ("staticmethod",) for d in fi.node.decorator_list):
+            return UNK
+        for n in q.walk_body(fi.node):
+            if isinstance(n, (ast.Assign, ast.AugAssign, ast.AnnAssign, ast.Delete)) and any(p.startswith("self.") for p in q.assigned_paths(n)):
+                return UNK
+            if isinstance(n, (ast.Yield, ast.YieldFrom, ast.Await)):
+                return UNK
+        a = fi.node.args
+        params = [x.arg for x in a.posonlyargs + a.args]
+        if is_method and params[:1] == ["self"]:
+            params = params[1:]
+        if a.vararg or a.kwarg or len(call.args) > len(params) or any(isinstance(x, ast.Starred) for x in call.args):
+            return UNK
+        init: Dict[str, object] = {k: v for k, v in env.items() if k.startswith("self.") or k == "@resolve"}
+        bound = {}
+        for p_, arg in zip(params, call.args):
+            bound[p_] = arg
+        for k in call.keywords:
+            if k.arg in params and k.arg not in bound:
+                bound[k.arg] = k.value
+        defaults = dict(zip(params[len(params) - len(a.defaults):], a.defaults)) if a.defaults else {}
+        for p_ in params:
+            src = bound.get(p_, defaults.get(p_))
+            if src is None:
+                return UNK
+            v = try_fold(src, env)
+            if v is not UNK:
+                init[p_] = v
+            else:
+                d = q.dotted(prep(src)) if isinstance(src, (ast.Name, ast.Attribute, ast.Subscript, ast.Call)) else None
+                if d:
+                    for kk, vv in env.items():
+                        if kk.startswith(d + ".") or kk.startswith(d + "["):
+                            init[p_ + kk[len(d):]] = vv
+        ckey = (fi.qualname, frozenset((k, v) for k, v in init.items() if k != "@resolve"))
+        if ckey in cache:
+            return cache[ckey]
+        cache[ckey] = UNK
+        depth[0] += 1
+        try:
+            cache[ckey] = _decide(fi, init)
+            return cache[ckey]
+        except AnalysisError:
+            return UNK
+        finally:
+            depth[0] -= 1
+
+    def _decide(fi, init):
+        if True:
+            states = peval(fi.cfg, init, track=lambda t: False)
+            vals = set()
+            n_ret = 0
+            for node in fi.cfg.stmt_nodes(lambda n: n.kind == "stmt" and isinstance(n.ast, ast.Return)):
+                for _f, e2 in states.get(node.id, []):
+                    n_ret += 1
+                    if node.ast.value is None:
+                        vals.add(None)
+                        continue
+                    v = try_fold(node.ast.value, e2)
+                    if v is UNK:
+                        return UNK
+                    vals.add(v if not isinstance(v, bool) else bool(v))
+            if states.get(fi.cfg.exit.id) and any(True for _ in states[fi.cfg.exit.id]):
+                # falling off the end returns None unless every exit path went through a return
+                fall = [1 for pid, k in fi.cfg.pred[fi.cfg.exit.id] if not isinstance(fi.cfg.nodes[pid].ast, ast.Return) and states.get(pid)]
+                if fall:
+                    vals.add(None)
+            if n_ret and len(vals) == 1:
+                v = next(iter(vals))
+                if isinstance(v, (bool, int, str, bytes, type(None))):
+                    return v
+            return UNK
+
+    return resolve
 
 
 def _fold3(e: ast.AST, known: Dict[str, object]):
@@ -400,3 +505,43 @@ def predicates_on(fn: ast.AST, var_paths: Sequence[str]) -> List[ast.AST]:
             if ps & vp:
                 out.append(n)
     return out
+
+
+def pure_self_methods(repo, relpath: str, clsname: str) -> Set[str]:
+    """Names of methods of ``clsname`` that provably do not change the object:
+    no store to ``self.*`` and only calls of pure builtins/methods or of other
+    such methods.  Calls to them keep the partial evaluator's ``self.*`` bindings."""
+    meths = {f.name: f for f in repo.direct_methods(relpath, clsname)}
+    pure: Set[str] = set()
+    cand = set()
+    for name, fi in meths.items():
+        ok = not isinstance(fi.node, ast.AsyncFunctionDef)
+        for n in q.walk_body(fi.node):
+            if isinstance(n, (ast.Assign, ast.AugAssign, ast.AnnAssign, ast.Delete)) and any(p.startswith("self.") or p.startswith("self[") for p in q.assigned_paths(n)):
+                ok = False
+            if isinstance(n, (ast.Yield, ast.YieldFrom, ast.Await, ast.Global, ast.Nonlocal)):
+                ok = False
+        if ok:
+            cand.add(name)
+    changed = True
+    pure = set(cand)
+    while changed:
+        changed = False
+        for name in list(pure):
+            for c in q.calls(meths[name].node):
+                if isinstance(c.func, ast.Attribute):
+                    if c.func.attr in PURE_METHODS:
+                        continue
+                    if q.dotted(c.func.value) == "self" and c.func.attr in pure:
+                        continue
+                    pure.discard(name)
+                    changed = True
+                    break
+                else:
+                    fn = q.dotted(c.func)
+                    if fn in PURE_FUNCS or fn in IDENTITY_CALLS:
+                        continue
+                    pure.discard(name)
+                    changed = True
+                    break
+    return pure
